@@ -37,6 +37,9 @@ struct xfwd
     int data_len;
 
     bool running;
+
+    /* the source has been closed by the remote peer */
+    bool src_closed;
 };
 
 struct xrelay;
@@ -56,6 +59,14 @@ struct xrelay
     int cond1;
 
     bool running;
+
+    /* One of the connections has been closed by its remote peer, and
+       the relay is kept only until what has already been handed over
+       to the other connection ('drain_conn') has been flushed. */
+    bool draining;
+    struct xcm_socket *drain_conn;
+    struct event drain_event;
+    struct event_base *event_base;
 
     LIST_ENTRY(xrelay) entry;
 };
